@@ -112,6 +112,11 @@ class Server:
             "full": C.snapshot(data_only=False),
             "data": C.snapshot(data_only=True),
         }
+        # public constants only (no underscore names, no cache slots): what must
+        # be identical in every process variant (H9)
+        d, slots = self.base["data"]
+        self.base["public"] = ({k: v for k, v in d.items()
+                                if not C.key_is_internal(k) and k not in slots}, set())
         # sets are not JSON; children inherit this object through fork
         self.cache_dir = cache_dir
         self.mem = {}
